@@ -121,6 +121,9 @@ def run_batch(prop, tier, base_seed, nruns=None, workers=None, wall_cap=None, qu
     _load_specs()
     spec = REGISTRY[prop]
     nruns = nruns or (spec.quick if tier == "quick" else spec.thorough)
+    scale = float(os.environ.get("VERIF_RUNS_SCALE", "1") or 1)
+    if scale != 1:
+        nruns = max(50, int(nruns * scale))
     workers = workers or min(16, os.cpu_count() or 1)
     wall_cap = wall_cap or (75 if tier == "quick" else 900)
     chunk = spec.chunk or max(1, min(50, nruns // (workers * 4) or 1))
